@@ -14,6 +14,8 @@ import torch.multiprocessing as mp
 
 from torch._utils import ExceptionWrapper
 
+from torchdata.nodes.exception_wrapper import MapFnExceptionWrapper
+
 from .constants import QUEUE_TIMEOUT
 
 
@@ -48,6 +50,6 @@ def _apply_udf(
             try:
                 y = udf(item)
             except Exception:
-                y = ExceptionWrapper(where="in _apply_udf")
+                y = MapFnExceptionWrapper(where="in _apply_udf")
 
             out_q.put((y, idx), block=False)
